@@ -586,6 +586,18 @@ StreamFeed(c, o) ==
   /\ cli' = Instant(c, o, Mid(c), Last("ok", 0, 0, o.a))
   /\ UNCHANGED <<hnd, rsp, tmr, reg, now, hst>>
 
+\* ---- the client gives up: the operation's future is dropped while it is pending (select!, timeout, ...).
+\*      What was submitted stays submitted; what the future owned is released.
+Abandon(c) ==
+  LET st == cli[c].stage  m == cli[c].m  a == cli[c].ta IN
+  /\ st \in {"flush", "resp", "await", "join", "sleep", "reglock", "regping"}
+  /\ cli' = Finished(cli, c, Last("cancelled", 0, 0, a))
+  \* the response receiver of a call / ping goes with the future (the handler's answer is then discarded)
+  /\ rsp' = IF m \in DOMAIN rsp THEN [y \in DOMAIN rsp \ {m} |-> rsp[y]] ELSE rsp
+  \* a dropped from_registry that was pinging a fresh instance releases the registry lock
+  /\ reg' = IF reg.lock = c THEN [reg EXCEPT !.lock = "free"] ELSE reg
+  /\ UNCHANGED <<act, hnd, tmr, now, hst>>
+
 Issue(c, o) ==
   \/ Spawn(c, o) \/ SubmitForce(c, o) \/ SubmitWait(c, o) \/ AwaitBegin(c, o) \/ Query(c, o)
   \/ Convert(c, o) \/ Upgrade(c, o) \/ DropH(c, o) \/ Give(c, o) \/ Detach(c, o) \/ JoinBegin(c, o)
